@@ -6,7 +6,7 @@
     called), and the children are visited by nobody.
   * `leave`: rules in reverse order, `TypeInfoVisitor` last.
   The traversal is `ASTVisitor` of lang/visitor.py: a variable definition visits its default value, then
-  its type (the `Variable` and directives of a definition are not entered); `_visit_type` does not
+  its type, then its directives (the `Variable` of a definition is not entered); `_visit_type` does not
   descend; a fragment definition's type condition is not entered.
 -/
 import PyGqlModel.Validate.Rules
@@ -129,7 +129,7 @@ end
 def visitVarDef (c : Cfg) (v : VarDef) (st : St) : St :=
   visitNode c (.varDef v) (fun st =>
     let st := match v.default with | some d => visitValue c d st | none => st
-    visitNode c (.typeNode v.type) id st) st
+    visitDirectives c v.dirs (visitNode c (.typeNode v.type) id st)) st
 
 def visitDef (c : Cfg) (d : Def) (st : St) : St :=
   match d with
